@@ -395,7 +395,7 @@ func ReadComponent(r ParseReader) (Component, error) {
 }
 
 func parseCompTypeFromStr(s string) (TLNum, compValFmt, error) {
-	if IsAlphabet(rune(s[0])) {
+	if len(s) > 0 && IsAlphabet(rune(s[0])) {
 		if conv, ok := compConvByStr[s]; ok {
 			return conv.typ, conv.vFmt, nil
 		} else {
